@@ -66,6 +66,10 @@ class FakeSock(object):
 
   def recv(self, n):
     self.max_asked = max(self.max_asked, n)
+    if not self.pending:
+      # the controller's sockets are non-blocking and read when select says so: with nothing (more) to
+      # read, recv does not return b"" (that is end of stream), it fails with EAGAIN
+      raise BlockingIOError(11, "Resource temporarily unavailable")
     d, self.pending = self.pending[:n], self.pending[n:]
     return d
 
@@ -92,6 +96,7 @@ class Adapter(object):
     self.stream = b""
     self.msgs = []
     self.off = 0
+    self.fail = set()
     if side == "ctl":
       self.sock = FakeSock()
       self.con = of_01.Connection(self.sock)
@@ -108,14 +113,20 @@ class Adapter(object):
 
   def _rec_ctl(self, con, msg):
     self.got.append((msg.header_type, msg.xid, msg.pack()))
+    if msg.xid in self.fail:
+      raise RuntimeError("handler failure (scripted)")
 
-  def _rec_sw(self, con, msg):
-    self.got.append((msg.header_type, msg.xid, msg.pack()))
+  _rec_sw = _rec_ctl
 
   def step(self, a, args):
     if a == "Stream":
       self.msgs = [build(self.side, k, i + 1) for i, k in enumerate(args["kinds"])]
       self.stream = b"".join(self.msgs)
+      self.fail = set(args.get("fail", []))
+      if self.side == "swloop":
+        from harness import c10_loops
+        c10_loops.RAISE_SET.clear()
+        c10_loops.RAISE_SET.update(self.fail)
       return {"x": 0}
     k = args["k"]
     chunk = self.stream[self.off:self.off + k]
@@ -155,6 +166,8 @@ class Adapter(object):
 
   def close(self):
     if self.side == "swloop":
+      from harness import c10_loops
+      c10_loops.RAISE_SET.clear()
       self.lp.close()
 
   def signature(self, st, obs):
